@@ -349,6 +349,11 @@ func genName(g *simrt.Choices) string {
 	for i := range parts {
 		parts[i] = nameFrags[g.Pick(len(nameFrags))]
 	}
+	if g.Bool(0.08) {
+		// Graphite tolerates a leading dot and the validator's key drops it, but filters, rewriters and the forwarded line
+		// work on the name as received
+		return "." + strings.Join(parts, ".")
+	}
 	return strings.Join(parts, ".")
 }
 
